@@ -12,6 +12,12 @@ CHECKS = {
              text="Decides that every integer parsed from client bytes is bounded before cast/arithmetic/allocation/index/advance, that decoder recursion is depth-bounded, and that the panic-capable sites reachable from the decoder are exactly the guarded + reviewed set.", ref="§5 C21"),
  "C22": dict(tech="def-use provenance of formatted string arguments to a CR/LF sanitiser; sanitiser semantics checked on MIR constants and guards; write provenance in the connection loop",
              text="Decides that string data reaches a CRLF-terminated frame only through a function that removes both CR and LF, other variants are numeric or length-prefixed, and the server writes only encoder output. Sufficient for the one-frame clause under the stated trusted base.", ref="§5 C22"),
+ "C33": dict(tech="expression extraction from MIR + exhaustive evaluation over the ordering table; receiver-chain provenance of counted collections",
+             text="Decides that both quorum operands count one set of voter ids (distinctness by construction), that the threshold expression equals 2*active > voters on the full table 0<=active<=voters<=8 whatever its spelling, and that healthy is its conjunction with the leader test. Together with the counting lemma (stated, not re-proved) this is the statement for health_status.", ref="§5 C33"),
+ "C31": dict(tech="dominance of removal over insertion in coroutine MIR; closure-predicate extraction and evaluation over index orderings {i-1,i,i+1}; branch-sensitive field-read placement",
+             text="Decides the three clauses structurally for every history: append removes entries >= the new index before every push; snapshot compaction keeps exactly entries > the recorded snapshot index; last index/term falls back to the snapshot only for an empty log.", ref="§5 C31"),
+ "C03": dict(tech="identity-flow (def-use) of the cache key and cached value; normaliser verified against delimiter/whitespace sets read from cypher.pest; call-graph purity of parse_query",
+             text="Decides jointly sufficient conditions on every path of cached_parse: key identity up to a whitespace normaliser that provably acts only outside string/comment-bearing queries and only on grammar whitespace; stored value = parse of the same string; hit returns its clone; parse is pure.", ref="§5 C03"),
 }
 
 NA = {
